@@ -11,7 +11,7 @@
 (* Enumerated:  all keysets of <= 1 key over the FULL per-key domain (5 statuses x 7    *)
 (* prefixes x 5 key-data classes, + the nil key); all keysets of 2 keys where at least   *)
 (* one key ranges over the full domain and the other over the REDUCED domain; all        *)
-(* keysets of 3 keys over the reduced domain; each with every id pattern, every primary  *)
+(* keysets of 3 keys over the reduced domain (without RAW); each with every id pattern, every primary *)
 (* id (each used id, and an unused one) and both materials (secret / public keys).       *)
 (* quick tier: <= 1 key and 2 reduced keys exhaustively, every Valid keyset of 3 reduced *)
 (* keys, all single-mutation neighbours of a seeded sample of those, and a seeded sample *)
@@ -19,10 +19,13 @@
 EXTENDS KeysetValidate, SequencesExt, Randomization, Json, IOUtils, TLC
 
 Fresh == 0
+Thorough == "VERIF_TIER" \in DOMAIN IOEnv /\ IOEnv.VERIF_TIER = "thorough"
 AttrFull == [nil : {FALSE}, status : StatusDom, prefix : PrefixDom, data : DataDom]
              \cup {[nil |-> TRUE, status |-> "UNKNOWN_STATUS", prefix |-> "UNKNOWN_PREFIX", data |-> "nil"]}
 ReducedPD == {<<"TINK", "ok">>, <<"RAW", "ok">>, <<"UNKNOWN_PREFIX", "ok">>, <<"TINK", "nil">>}
 AttrRed  == {a \in AttrFull : a.nil \/ <<a.prefix, a.data>> \in ReducedPD}
+\* three-key keysets: the id / status / primary interplay is what three keys add; RAW is a per-key matter
+AttrRed3 == {a \in AttrRed : a.nil \/ a.prefix # "RAW"}
 
 MaxOf(S) == CHOOSE x \in S : \A y \in S : y <= x
 \* restricted-growth id patterns with a primary: <<pattern, primary>>
@@ -43,7 +46,7 @@ Cases1 == {Case(s) : s \in Shape(1, AttrFull)}
 Mixed2 == {a \in [1..2 -> AttrFull] : a[1] \in AttrRed \/ a[2] \in AttrRed}
 Shape2Mixed == [attrs : Mixed2, pp : PatPrim(2), material : Materials]
 Shape2Red == Shape(2, AttrRed)
-Shape3Red == Shape(3, AttrRed)
+Shape3Red == Shape(3, IF Thorough THEN AttrRed3 ELSE AttrRed)
 
 \* every Valid keyset of n keys over the reduced domain, and everything one breaking mutation away from it
 OkAttr == {a \in AttrRed : ~a.nil /\ a.status \in KnownStatus /\ a.prefix \in KnownPrefix /\ a.data = "ok"}
@@ -52,7 +55,6 @@ WithMaterials(S) == {[ks |-> ks, material |-> m] : ks \in S, m \in Materials}
 NearValid(S) == UNION {BrokenNeighbours(ks, Fresh) : ks \in S}
 
 EnvInt(name, dflt) == IF name \in DOMAIN IOEnv THEN atoi(IOEnv[name]) ELSE dflt
-Thorough == "VERIF_TIER" \in DOMAIN IOEnv /\ IOEnv.VERIF_TIER = "thorough"
 
 Cases ==
   IF Thorough
